@@ -44,6 +44,7 @@ enum Ty {
 impl Ty {
     fn coq(&self) -> String {
         match self {
+            Ty::Int(k) if k == "i32" || k == "i64" || k == "isize" => "Z".into(),
             Ty::Int(_) | Ty::Extern(_) | Ty::F64 => "N".into(),
             Ty::Bool => "bool".into(),
             Ty::Ptr => "(option N)".into(),
@@ -86,6 +87,10 @@ struct Cfg {
     extern_w: bool,                          // extern enum constants are functions of W
     newtypes: HashSet<String>,               // single-field tuple structs represented by their field
     extern_methods: HashMap<String, String>, // "Type::method" -> Gallina function (W, receiver, args) of the hand-written support file
+    append_fns: HashMap<String, String>,     // `path::f(&mut buf, args..)` appends `(g args..)` to the byte buffer `buf`
+    ptr_buffer: Option<String>,              // the field of `self` that raw destination pointers point into
+    also: Vec<(String, Vec<String>)>,        // further source files whose types / signatures are known (generated elsewhere)
+    synth_structs: Vec<String>,              // `Name{field:Type,..}`: a struct defined in another file, only these fields used
 }
 
 struct Tr {
@@ -107,6 +112,7 @@ struct Fx<'a> {
     alias: HashMap<String, (String, String)>, // child -> (parent, rebuild template with {} for the child)
     fresh: usize,
     calls: Vec<(String, String)>,
+    ptr_src: HashMap<String, String>, // pointer variable -> the local slice value it points to the start of
 }
 
 fn path_str(p: &Path) -> Vec<String> {
@@ -239,6 +245,7 @@ impl<'a> Fx<'a> {
             Expr::Unary(u) if matches!(u.op, UnOp::Deref(_)) => self.place(&u.expr),
             Expr::Paren(p) => self.place(&p.expr),
             Expr::Reference(r) => self.place(&r.expr),
+            Expr::MethodCall(m) if m.args.is_empty() && matches!(m.method.to_string().as_str(), "as_slice" | "as_mut_vec" | "as_mut_slice" | "as_vec") => self.place(&m.receiver),
             Expr::Field(f) => {
                 let (root, mut fs) = self.place(&f.base)?;
                 let bt = self.place_ty(&root, &fs)?;
@@ -478,8 +485,12 @@ impl<'a> Fx<'a> {
         match (&from, &to) {
             (_, Ty::Unknown) => Ok((a, from)), // `as _`: type decided by the callee; handled at call sites
             (Ty::Int(f), Ty::Int(t)) => {
-                if f == t {
+                let signed = |k: &str| k == "i32" || k == "i64" || k == "isize";
+                if f == t || (signed(f) && signed(t) && self.bits_of(f) != self.bits_of(t) && f == "i32") {
+                    // same type, or the sign extension i32 -> i64 (a mathematical integer stays what it is)
                     Ok((a, to))
+                } else if signed(f) || signed(t) {
+                    err("cast between signed and unsigned integers", sp)
                 } else {
                     Ok((format!("(u_cast {} {})", self.bits_of(t), a), to))
                 }
@@ -664,6 +675,10 @@ impl<'a> Fx<'a> {
         match p {
             Pat::Ident(i) => {
                 let n = i.ident.to_string();
+                let atom = match atom.find("(*@") {
+                    Some(k) => { self.ptr_src.insert(n.clone(), atom[k + 3..].trim_end_matches("*)").to_string()); atom[..k].trim() }
+                    None => atom,
+                };
                 if n != atom {
                     let _ = writeln!(pre, "let {} := {} in", n, atom);
                 }
@@ -704,6 +719,30 @@ impl<'a> Fx<'a> {
     fn method_call(&mut self, m: &ExprMethodCall, pre: &mut String) -> R<(String, Ty)> {
         let name = m.method.to_string();
         let args: Vec<&Expr> = m.args.iter().collect();
+        if args.is_empty() && matches!(name.as_str(), "as_slice" | "as_mut_vec" | "as_mut_slice" | "as_vec") {
+            return self.expr(&m.receiver, pre);
+        }
+        // `encode::write_x(&mut buf, args..).unwrap()`: the encoder appends to the buffer and cannot fail on a Vec
+        if name == "unwrap" {
+            if let Expr::Call(c) = &*m.receiver {
+                if let Expr::Path(p) = &*c.func {
+                    let joined = path_str(&p.path).join("::");
+                    if let Some(g) = self.tr.cfg.append_fns.get(&joined).cloned() {
+                        let cargs: Vec<&Expr> = c.args.iter().collect();
+                        let (root, fs) = self.place(cargs[0])?;
+                        let mut call = format!("({}", g);
+                        for a in &cargs[1..] {
+                            let (v, _) = self.expr(a, pre)?;
+                            let _ = write!(call, " {}", paren(&v));
+                        }
+                        call.push(')');
+                        let cur = self.place_get(&root, &fs);
+                        self.place_set(&root, &fs, &format!("({} ++ {})", cur, call), pre);
+                        return Ok(("tt".into(), Ty::Unit));
+                    }
+                }
+            }
+        }
         // `x.pop().unwrap_or(d)` on a Vec place
         if name == "unwrap_or" {
             if let Expr::MethodCall(inner) = &*m.receiver {
@@ -777,7 +816,11 @@ impl<'a> Fx<'a> {
                         }
                     }
                 }
-                let _ = self.expr(&m.receiver, pre)?;
+                let (ra, rt) = self.expr(&m.receiver, pre)?;
+                if matches!(rt, Ty::List(_)) && ra.chars().all(|c| c.is_alphanumeric() || c == '_') {
+                    // a pointer to the start of a local slice value: remembered so that a later copy from it copies that slice
+                    return Ok((format!("(Some 0) (*@{}*)", ra), Ty::Ptr));
+                }
                 return Ok(("(Some 0)".into(), Ty::Ptr));
             }
             "add" => {
@@ -926,6 +969,22 @@ impl<'a> Fx<'a> {
             let _ = writeln!(pre, "let '({}, {}) := ({}, {}) in", a, b, self.place_get(&r2, &f2), self.place_get(&r1, &f1));
             self.place_set(&r1, &f1, &a, pre);
             self.place_set(&r2, &f2, &b, pre);
+            return Ok(("tt".into(), Ty::Unit));
+        }
+        if joined.ends_with("ptr::copy_nonoverlapping") || joined.ends_with("ptr::copy") {
+            // copy(src, dst, n): src is a pointer to a local slice value, dst a destination handed out into `ptr_buffer`
+            let (src, _) = self.expr(args[0], pre)?;
+            let src_list = match self.ptr_src.get(src.trim()) { Some(x) => x.clone(), None => return err("copy from a pointer that is not the start of a local slice", c.span()) };
+            let (dst, _) = self.expr(args[1], pre)?;
+            let (n, _) = self.expr(args[2], pre)?;
+            let field = self.tr.cfg.ptr_buffer.clone().ok_or("T8: a raw copy needs --ptr-buffer")?;
+            let owner = self.self_ty.clone();
+            let fs = vec![(owner, field)];
+            let cur = self.place_get("self", &fs);
+            let v = self.fresh("b");
+            let _ = writeln!(pre, "gbind (vec_write {} {} (takeN {} {})) (fun {} =>", cur, paren(&dst), src_list, paren(&n), v);
+            self.calls.push(("".into(), ")".into()));
+            self.place_set("self", &fs, &v, pre);
             return Ok(("tt".into(), Ty::Unit));
         }
         if joined == "f64::from_bits" {
@@ -1434,6 +1493,10 @@ fn main() {
         extern_w: false,
         newtypes: HashSet::new(),
         extern_methods: HashMap::new(),
+        append_fns: HashMap::new(),
+        ptr_buffer: None,
+        also: vec![],
+        synth_structs: vec![],
     };
     let mut emit_consts = true;
     let mut i = 1;
@@ -1463,6 +1526,16 @@ fn main() {
                 let (a, b) = v.split_once('=').expect("--extern-method T::m=f");
                 cfg.extern_methods.insert(a.into(), b.into());
             }
+            "--append-fn" => {
+                let (a, b) = v.split_once('=').expect("--append-fn path=f");
+                cfg.append_fns.insert(a.into(), b.into());
+            }
+            "--ptr-buffer" => cfg.ptr_buffer = Some(v.clone()),
+            "--also" => {
+                let (f, t) = v.split_once(':').expect("--also file:Type,Type");
+                cfg.also.push((f.into(), t.split(',').map(|s| s.to_string()).collect()));
+            }
+            "--struct" => cfg.synth_structs.push(v.clone()),
             "--skip" => {
                 cfg.skip_fns.extend(v.split(',').map(|s| s.to_string()));
             }
@@ -1491,6 +1564,58 @@ fn run(src: &str, types: &[String], imports: &[String], cfg: Cfg, emit_consts: b
     let text = std::fs::read_to_string(src).map_err(|e| format!("T8: cannot read {}: {}", src, e))?;
     let file = syn::parse_file(&text).map_err(|e| format!("T8: cannot parse {}: {}", src, e))?;
     let mut tr = Tr { cfg, structs: BTreeMap::new(), enums: BTreeMap::new(), unit_enums: HashSet::new(), consts: BTreeMap::new(), sigs: HashMap::new(), variant_fields: HashMap::new() };
+    // types and signatures generated elsewhere (their files are imported by the caller with --import)
+    let also = std::mem::take(&mut tr.cfg.also);
+    for (f, tys) in &also {
+        let t2 = std::fs::read_to_string(f).map_err(|e| format!("T8: cannot read {}: {}", f, e))?;
+        let file2 = syn::parse_file(&t2).map_err(|e| format!("T8: cannot parse {}: {}", f, e))?;
+        for it in &file2.items {
+            match it {
+                Item::Struct(s) if tys.contains(&s.ident.to_string()) => { tr.structs.insert(s.ident.to_string(), vec![]); }
+                Item::Enum(e) if tys.contains(&e.ident.to_string()) => { tr.enums.insert(e.ident.to_string(), vec![]); }
+                _ => {}
+            }
+        }
+        for it in &file2.items {
+            match it {
+                Item::Struct(s) if tys.contains(&s.ident.to_string()) => {
+                    let mut fs = vec![];
+                    for (k, fl) in s.fields.iter().enumerate() { fs.push((fl.ident.as_ref().map(|i| i.to_string()).unwrap_or(format!("f{}", k)), tr.ty(&fl.ty)?)); }
+                    tr.structs.insert(s.ident.to_string(), fs);
+                }
+                Item::Enum(e) if tys.contains(&e.ident.to_string()) => {
+                    let mut vs = vec![];
+                    for v in &e.variants { let mut ts = vec![]; for fl in v.fields.iter() { ts.push(tr.ty(&fl.ty)?); } vs.push((v.ident.to_string(), ts)); }
+                    tr.enums.insert(e.ident.to_string(), vs);
+                }
+                Item::Impl(im) if im.trait_.is_none() && !has_cfg_test(&im.attrs) => {
+                    let owner = match &*im.self_ty { Type::Path(p) => path_str(&p.path).last().unwrap().clone(), _ => continue };
+                    if !tys.contains(&owner) { continue; }
+                    for ii in &im.items {
+                        if let ImplItem::Fn(fun) = ii {
+                            if let Ok(sig) = sig_of(&tr, &owner, &fun.sig) { tr.sigs.insert((owner.clone(), sig.name.clone()), sig); }
+                        }
+                    }
+                }
+                _ => {}
+            }
+        }
+    }
+    let mut types: Vec<String> = types.to_vec();
+    let mut synth: Vec<(String, Vec<(String, Ty)>)> = vec![];
+    for sdef in std::mem::take(&mut tr.cfg.synth_structs) {
+        let (name, rest) = sdef.split_once('{').ok_or("T8: --struct Name{f:T,..}")?;
+        let mut fs = vec![];
+        for fd in rest.trim_end_matches('}').split(';').filter(|x| !x.trim().is_empty()) {
+            let (fname, fty) = fd.split_once(':').ok_or("T8: --struct field f:T")?;
+            let t: Type = syn::parse_str(fty.trim()).map_err(|e| e.to_string())?;
+            fs.push((fname.trim().to_string(), tr.ty(&t)?));
+        }
+        tr.structs.insert(name.trim().to_string(), fs.clone());
+        types.push(name.trim().to_string());
+        synth.push((name.trim().to_string(), fs));
+    }
+    let types: &[String] = &types;
     let want: HashSet<&String> = types.iter().collect();
     // pass 0: register names so that types can refer to each other
     for it in &file.items {
@@ -1549,6 +1674,7 @@ fn run(src: &str, types: &[String], imports: &[String], cfg: Cfg, emit_consts: b
             _ => {}
         }
     }
+    for (n, _) in &synth { type_order.push(n.clone()); }
     // dependency order of types
     let mut emitted: Vec<String> = vec![];
     fn deps(t: &Ty, acc: &mut Vec<String>) {
@@ -1611,26 +1737,7 @@ fn run(src: &str, types: &[String], imports: &[String], cfg: Cfg, emit_consts: b
                                 continue;
                             }
                         }
-                        let mut recv = None;
-                        let mut params = vec![];
-                        for a in &f.sig.inputs {
-                            match a {
-                                FnArg::Receiver(r) => recv = Some(r.reference.is_some() && r.mutability.is_some()),
-                                FnArg::Typed(pt) => {
-                                    let n = match &*pt.pat {
-                                        Pat::Ident(i) => i.ident.to_string(),
-                                        _ => return err("parameter pattern", pt.span()),
-                                    };
-                                    let is_mut = matches!(&*pt.ty, Type::Reference(r) if r.mutability.is_some());
-                                    params.push((n, tr.ty(&pt.ty)?, is_mut));
-                                }
-                            }
-                        }
-                        let ret = match &f.sig.output {
-                            ReturnType::Default => Ty::Unit,
-                            ReturnType::Type(_, t) => ret_ty(&tr, t)?,
-                        };
-                        let sig = Sig { owner: owner.clone(), name: name.clone(), recv, params, ret };
+                        let sig = sig_of(&tr, &owner, &f.sig)?;
                         tr.sigs.insert((owner.clone(), name), sig.clone());
                         bodies.push((sig, f.block.clone(), f.span().start().line));
                     }
@@ -1642,7 +1749,7 @@ fn run(src: &str, types: &[String], imports: &[String], cfg: Cfg, emit_consts: b
     // translate bodies
     let mut defs: Vec<(String, String, Vec<(String, String)>)> = vec![]; // (key, text, callees)
     for (sig, block, line) in &bodies {
-        let mut fx = Fx { tr: &tr, self_ty: sig.owner.clone(), outs: vec![], ret: sig.ret.clone(), tyenv: HashMap::new(), alias: HashMap::new(), fresh: 0, calls: vec![] };
+        let mut fx = Fx { tr: &tr, self_ty: sig.owner.clone(), outs: vec![], ret: sig.ret.clone(), tyenv: HashMap::new(), alias: HashMap::new(), fresh: 0, calls: vec![], ptr_src: HashMap::new() };
         let mut header = format!("(* {}::{} — {}:{} *)\nDefinition {}_{} (W : N) (trap : bool)", sig.owner, sig.name, src_rel(src), line, sig.owner, sig.name);
         let mut out_tys: Vec<String> = vec![];
         if let Some(m) = sig.recv {
@@ -1686,7 +1793,7 @@ fn run(src: &str, types: &[String], imports: &[String], cfg: Cfg, emit_consts: b
             if done.contains(k) {
                 continue;
             }
-            if cs.iter().all(|(o, n)| { let key = format!("{}_{}", o, n); key == *k && false || done.contains(&key) }) {
+            if cs.iter().all(|(o, n)| { let key = format!("{}_{}", o, n); done.contains(&key) || !defs.iter().any(|(k2, _, _)| *k2 == key) }) {
                 text_defs.push_str(t);
                 text_defs.push('\n');
                 done.push(k.clone());
@@ -1732,7 +1839,7 @@ fn run(src: &str, types: &[String], imports: &[String], cfg: Cfg, emit_consts: b
             let _ = writeln!(o, ".");
             if let Some(ds) = discr.get(n) {
                 // discriminants of a C-like enum (implicit ones continue from the previous)
-                let mut fx = Fx { tr: &tr, self_ty: n.clone(), outs: vec![], ret: Ty::Unit, tyenv: HashMap::new(), alias: HashMap::new(), fresh: 0, calls: vec![] };
+                let mut fx = Fx { tr: &tr, self_ty: n.clone(), outs: vec![], ret: Ty::Unit, tyenv: HashMap::new(), alias: HashMap::new(), fresh: 0, calls: vec![], ptr_src: HashMap::new() };
                 let _ = writeln!(o, "Definition {}_discr (W : N) (t : {}) : N :=\n  match t with", n, n);
                 let mut prev: Option<String> = None;
                 for (v, d) in ds {
@@ -1763,6 +1870,29 @@ fn run(src: &str, types: &[String], imports: &[String], cfg: Cfg, emit_consts: b
     }
     o.push_str(&text_defs);
     Ok(o)
+}
+
+fn sig_of(tr: &Tr, owner: &str, fsig: &Signature) -> R<Sig> {
+    let mut recv = None;
+    let mut params = vec![];
+    for a in &fsig.inputs {
+        match a {
+            FnArg::Receiver(r) => recv = Some(r.reference.is_some() && r.mutability.is_some()),
+            FnArg::Typed(pt) => {
+                let n = match &*pt.pat {
+                    Pat::Ident(i) => i.ident.to_string(),
+                    _ => return err("parameter pattern", pt.span()),
+                };
+                let is_mut = matches!(&*pt.ty, Type::Reference(r) if r.mutability.is_some());
+                params.push((n, tr.ty(&pt.ty)?, is_mut));
+            }
+        }
+    }
+    let ret = match &fsig.output {
+        ReturnType::Default => Ty::Unit,
+        ReturnType::Type(_, t) => ret_ty(tr, t)?,
+    };
+    Ok(Sig { owner: owner.to_string(), name: fsig.ident.to_string(), recv, params, ret })
 }
 
 fn ret_ty(tr: &Tr, t: &Type) -> R<Ty> {
